@@ -171,6 +171,7 @@ def _run_ddp(case):
     S["W"] = min(S["W"], 4)
     if S["W"] % S["G"]:
         S["G"] = max(d for d in range(1, S["W"] + 1) if S["W"] % d == 0 and d <= S["G"])
+    S["G_arg"] = -1 if (S.get("G_arg") == -1 and S["G"] == S["W"]) else S["G"]
     S["T"] = min(S["T"], 7)
     rnd = rng_for(*case["seed"], "stops")
     stops = set(rnd.sample(range(1, S["T"]), min(2, S["T"] - 1)))
